@@ -597,12 +597,21 @@ func (s *SourceControl) CoupleErrToFB(couple *bool, reply *bool) error {
 		if *couple {
 			c = ErrToFB
 		}
-		err := s.ActiveSource.SetCoupling(c)
-		s.clientUpdates <- ClientUpdate{"TRIGCOUPLING", c}
-		s.queuedResults <- err
+		s.queuedResults <- s.setCouplingAndReport(c)
 	}
 	err := s.runLaterIfActive(f)
 	*reply = (err == nil)
+	return err
+}
+
+// setCouplingAndReport changes the FB/error coupling and tells clients what is now in force: the coupling status and
+// the trigger connections, which the coupling adds or removes. A refused change is not reported as if it had happened.
+func (s *SourceControl) setCouplingAndReport(c CouplingStatus) error {
+	err := s.ActiveSource.SetCoupling(c)
+	if err == nil {
+		s.clientUpdates <- ClientUpdate{"TRIGCOUPLING", c}
+		s.clientUpdates <- ClientUpdate{"GROUPTRIGGER", s.ActiveSource.ComputeGroupTriggerState()}
+	}
 	return err
 }
 
@@ -613,9 +622,7 @@ func (s *SourceControl) CoupleFBToErr(couple *bool, reply *bool) error {
 		if *couple {
 			c = FBToErr
 		}
-		err := s.ActiveSource.SetCoupling(c)
-		s.clientUpdates <- ClientUpdate{"TRIGCOUPLING", c}
-		s.queuedResults <- err
+		s.queuedResults <- s.setCouplingAndReport(c)
 	}
 	err := s.runLaterIfActive(f)
 	*reply = (err == nil)
